@@ -21,6 +21,40 @@ pub fn run_comp(op: &str, a: &[&str]) -> String {
         "rb" => format!("{:x}", f::NumberFormatBuilder::rebuild(hex128(a[0])).build_unchecked()),
         // pn FMT PARTIAL LOSSY EXP DP NAN INF INFINITY HEX
         "pn" => crate::dispatch_pn(crate::parse_fmt(a[0]), &a[1..]).unwrap_or_else(|| "nofmt".to_string()),
+        // fs TY HEX -> `core::str::FromStr` of Rust itself: `ok <bits|value> -` | `err FromStr -` (C12: STANDARD vs FromStr)
+        "fs" => op_fs(a[0], &crate::unhex(a[1])),
+        _ => "badop".into(),
+    }
+}
+
+/// Rust's own `str::parse::<TY>()`; non-UTF-8 input is `err` (a `&str` cannot hold it).
+pub fn op_fs(ty: &str, bytes: &[u8]) -> String {
+    let s = match core::str::from_utf8(bytes) {
+        Ok(s) => s,
+        Err(_) => return "err FromStr -".into(),
+    };
+    macro_rules! int {
+        ($t:ty) => {
+            match s.parse::<$t>() {
+                Ok(v) => format!("ok {} -", v),
+                Err(_) => "err FromStr -".to_string(),
+            }
+        };
+    }
+    match ty {
+        "f32" => match s.parse::<f32>() {
+            Ok(v) if v.is_nan() => "ok nan -".into(),
+            Ok(v) => format!("ok {:x} -", v.to_bits()),
+            Err(_) => "err FromStr -".into(),
+        },
+        "f64" => match s.parse::<f64>() {
+            Ok(v) if v.is_nan() => "ok nan -".into(),
+            Ok(v) => format!("ok {:x} -", v.to_bits()),
+            Err(_) => "err FromStr -".into(),
+        },
+        "u8" => int!(u8), "u16" => int!(u16), "u32" => int!(u32), "u64" => int!(u64), "u128" => int!(u128),
+        "usize" => int!(usize), "i8" => int!(i8), "i16" => int!(i16), "i32" => int!(i32), "i64" => int!(i64),
+        "i128" => int!(i128), "isize" => int!(isize),
         _ => "badop".into(),
     }
 }
